@@ -122,12 +122,17 @@ class World:
         self._mon = False
         self.opi = -1
         self.cur_op = None
+        self._nviol = {}
 
     # ------------------------------------------------------------ helpers
     def count(self, key, n=1):
         self.stats[key] = self.stats.get(key, 0) + n
 
     def violate(self, prop, clause, detail=None):
+        n = self._nviol.get(clause, 0)
+        self._nviol[clause] = n + 1
+        if n >= 3:          # a corrupted state repeats the same complaint at every step; keep the first three
+            return
         self.viol.append({'property': prop, 'clause': clause, 'at': self.opi, 'detail': detail})
 
     def node(self, path):
@@ -261,9 +266,9 @@ class World:
             ev['why'] = res[1]
             self.count('skipped')
         if self.cap[0]:
-            ev['stdout'] = len(self.cap[0])
+            ev['stdout'] = True
         if self.cap[1]:
-            ev['stderr'] = len(self.cap[1])
+            ev['stderr'] = True
         self.count('op.' + kind)
         self.events.append(ev)
         self.last_exc = res[1] if res[0] == 'exc' else None
@@ -653,6 +658,35 @@ class World:
     def op_FSSTATE(self, op):
         return ('ok', self.fs.state(MOUNT + op['path']))
 
+    def op_PAIR(self, op):
+        """One abstract step rendered on two API surfaces (C15), executed atomically so that the
+        minimiser can never give the two twin documents different programs."""
+        out = {}
+        order = ['explicit', 'shortcut'] if op.get('first', 'explicit') == 'explicit' else ['shortcut', 'explicit']
+        caps = ['', '']
+        for side in order:
+            res = []
+            for sub in op[side]:
+                self.count('op.' + sub['op'])
+                try:
+                    r = getattr(self, 'op_' + sub['op'])(sub)
+                except _Skip as sk:
+                    r = ('skip', str(sk))
+                caps[0] += self.cap[0]
+                caps[1] += self.cap[1]
+                if r[0] == 'ok':
+                    res.append(['ok', r[1]])
+                elif r[0] == 'exc':
+                    res.append(['exc', type(r[1]).__name__, r[2] if len(r) > 2 else None])
+                    self.count('exc.' + type(r[1]).__name__)
+                    break
+                else:
+                    res.append(['skip', r[1]])
+                    break
+            out[side] = res
+        self.cap = tuple(caps)
+        return ('ok', out)
+
     def op_OBS(self, op):
         node = self._need(op['p'])
         o = self.observe(node, op.get('accept') or [], op.get('deep', True))
@@ -766,6 +800,11 @@ class World:
             return 'ok'
         except BaseException as e:
             return type(e).__name__
+
+    def c18_tainted(self, node):
+        """True if the node's children were ever placed by a replace / forward add (the caller chose the
+        slot), in which case C18 does not judge its serialised word."""
+        return node.sid in getattr(self, '_tainted', ())
 
     # ------------------------------------------------------------ abstract state (reach measure)
     def note_state(self, node):
